@@ -29,4 +29,74 @@ theorem hasFDerivAt_cayley_zero : HasFDerivAt (cayleyMap : 𝔸 → 𝔸) ((-2 :
   ext x
   simp [ContinuousLinearMap.mulLeftRight_apply, two_smul]
 
+
+/-- the differential of the Cayley transform at `A` (`u = 1 + A` invertible): `δ ↦ -2 u⁻¹ δ u⁻¹` -/
+noncomputable def cayleyD (u : 𝔸ˣ) : 𝔸 →L[ℝ] 𝔸 := (-2 : ℝ) • ContinuousLinearMap.mulLeftRight ℝ 𝔸 ↑u⁻¹ ↑u⁻¹
+
+theorem cayleyD_apply (u : 𝔸ˣ) (δ : 𝔸) : cayleyD u δ = (-2 : ℝ) • ((↑u⁻¹ : 𝔸) * δ * ↑u⁻¹) := by
+  simp [cayleyD, ContinuousLinearMap.mulLeftRight_apply]
+
+/-- **the Cayley transform is differentiable at every `A` with `1 + A` invertible, with differential `δ ↦ -2 (1+A)⁻¹ δ (1+A)⁻¹`** -/
+theorem hasFDerivAt_cayley (A : 𝔸) (u : 𝔸ˣ) (hu : (↑u : 𝔸) = 1 + A) : HasFDerivAt (cayleyMap : 𝔸 → 𝔸) (cayleyD u) A := by
+  have h1 : HasFDerivAt (fun B : 𝔸 => 1 + B) (ContinuousLinearMap.id ℝ 𝔸) A := (hasFDerivAt_id A).const_add 1
+  have hinv : HasFDerivAt (Ring.inverse : 𝔸 → 𝔸) (-ContinuousLinearMap.mulLeftRight ℝ 𝔸 ↑u⁻¹ ↑u⁻¹) ((fun B : 𝔸 => 1 + B) A) := by
+    have := hasFDerivAt_ringInverse (𝕜 := ℝ) u
+    rwa [hu] at this
+  have hg : HasFDerivAt (fun B : 𝔸 => Ring.inverse (1 + B)) ((-ContinuousLinearMap.mulLeftRight ℝ 𝔸 ↑u⁻¹ ↑u⁻¹).comp (ContinuousLinearMap.id ℝ 𝔸)) A :=
+    hinv.comp A h1
+  have hh : HasFDerivAt (fun B : 𝔸 => 1 - B) (-ContinuousLinearMap.id ℝ 𝔸) A := (hasFDerivAt_id A).const_sub 1
+  have := hg.mul' hh
+  refine this.congr_fderiv ?_
+  ext δ
+  have hri : Ring.inverse (1 + A) = (↑u⁻¹ : 𝔸) := by rw [← hu, Ring.inverse_unit]
+  have h1A : (1 : 𝔸) - A = 2 - ↑u := by
+    rw [hu, show (2 : 𝔸) = 1 + 1 by norm_num]; abel
+  simp only [cayleyD_apply, ContinuousLinearMap.add_apply, ContinuousLinearMap.smul_apply, ContinuousLinearMap.neg_apply,
+    ContinuousLinearMap.id_apply, ContinuousLinearMap.comp_apply, ContinuousLinearMap.mulLeftRight_apply, hri, h1A]
+  simp only [smul_eq_mul, MulOpposite.smul_eq_mul_unop, MulOpposite.unop_op]
+  have e : (↑u⁻¹ : 𝔸) * δ * ↑u⁻¹ * ↑u = ↑u⁻¹ * δ := by rw [mul_assoc, Units.inv_mul, mul_one]
+  have key : (↑u⁻¹ : 𝔸) * -δ + -((↑u⁻¹ : 𝔸) * δ * ↑u⁻¹) * (2 - ↑u) = -(((↑u⁻¹ : 𝔸) * δ * ↑u⁻¹) * 2) := by
+    rw [neg_mul, mul_sub, e]; noncomm_ring
+  rw [key, neg_smul, two_smul, mul_two]
+
+theorem cayleyD_injective (u : 𝔸ˣ) : Function.Injective (cayleyD u : 𝔸 → 𝔸) := by
+  rw [injective_iff_map_eq_zero]
+  intro δ h
+  rw [cayleyD_apply] at h
+  have h2 : (↑u⁻¹ : 𝔸) * δ * ↑u⁻¹ = 0 := by
+    rcases smul_eq_zero.1 h with h | h
+    · norm_num at h
+    · exact h
+  have := congrArg (fun x => (↑u : 𝔸) * x * ↑u) h2
+  simp only [mul_zero, zero_mul] at this
+  rw [← this]
+  simp [mul_assoc]
+
+/-- **chart level**: for an injective continuous linear placement `P` of the parameters (e.g. `θ ↦ generator`), the chart `θ ↦ cayley(P θ)`
+has injective differential — full rank — at every θ where `1 + P θ` is invertible (always, for skew generators) -/
+theorem cayley_chart_full_rank {E : Type*} [NormedAddCommGroup E] [NormedSpace ℝ E] (P : E →L[ℝ] 𝔸) (hP : Function.Injective P)
+    (θ : E) (u : 𝔸ˣ) (hu : (↑u : 𝔸) = 1 + P θ) :
+    HasFDerivAt (fun t => cayleyMap (P t)) ((cayleyD u).comp P) θ ∧ Function.Injective ((cayleyD u).comp P) := by
+  refine ⟨(hasFDerivAt_cayley (P θ) u hu).comp θ P.hasFDerivAt, ?_⟩
+  intro a b h
+  exact hP (cayleyD_injective u h)
+
+/-- order 2 (`C²`): differential `δ ↦ δC·C + C·δC` with `δC = -2u⁻¹δu⁻¹`; injective wherever the Sylvester operator `X ↦ X C + C X`
+is injective (i.e. `C` has no pair of eigenvalues `λ, -λ`) -/
+theorem cayley_sq_chart {E : Type*} [NormedAddCommGroup E] [NormedSpace ℝ E] (P : E →L[ℝ] 𝔸) (hP : Function.Injective P)
+    (θ : E) (u : 𝔸ˣ) (hu : (↑u : 𝔸) = 1 + P θ)
+    (hSyl : ∀ X : 𝔸, X * cayleyMap (P θ) + cayleyMap (P θ) * X = 0 → X = 0) :
+    ∃ D : E →L[ℝ] 𝔸, HasFDerivAt (fun t => cayleyMap (P t) * cayleyMap (P t)) D θ ∧ Function.Injective D
+      ∧ ∀ δ, D δ = cayleyD u (P δ) * cayleyMap (P θ) + cayleyMap (P θ) * cayleyD u (P δ) := by
+  obtain ⟨h1, h2⟩ := cayley_chart_full_rank P hP θ u hu
+  have hm := h1.mul' h1
+  refine ⟨_, hm, ?_, ?_⟩
+  · rw [injective_iff_map_eq_zero]
+    intro δ hδ
+    have : cayleyD u (P δ) * cayleyMap (P θ) + cayleyMap (P θ) * cayleyD u (P δ) = 0 := by
+      simpa [add_comm] using hδ
+    have h0 := hSyl _ this
+    exact (injective_iff_map_eq_zero _).1 h2 δ h0
+  · intro δ; simp [add_comm]
+
 end Numqi.Manifold
